@@ -763,6 +763,8 @@ class IntegerType(
             raise VerifyException(
                 f"integer type bitwidth should be nonnegative (got {self.width.data})"
             )
+        if self.width.data > 16777215:  # same limit as MLIR (IntegerType::kMaxWidth)
+            raise VerifyException("integer bitwidth is limited to 16777215 bits")
 
     def value_range(self) -> tuple[int, int]:
         return self.signedness.data.value_range(self.width.data)
